@@ -1040,11 +1040,12 @@ class ConditionalRelation(RelationProtocol, SimpleRepr):
             # We have all arguments to evaluate the condition, we can take it
             # out when slicing.
             if self._condition(**cond_args):
-                if len(partial_assignment) > len(cond_args):
-                    # We have some extra variables to slice the consequence on.
-                    slice_dict = {
-                        k: v for k, v in partial_assignment.items() if k in true_names
-                    }
+                # Slice the consequence on its own assigned variables (which
+                # may include variables that are also used in the condition).
+                slice_dict = {
+                    k: v for k, v in partial_assignment.items() if k in true_names
+                }
+                if slice_dict:
                     return self._relation_if_true.slice(slice_dict)
                 else:
                     return self._relation_if_true
